@@ -854,6 +854,12 @@ def b_hasattr(it, o, name):
 
 
 def b_type(it, v):
+    if isinstance(v, FlexDict):
+        return dict                    # the interpreter's representation of a program dict
+    if type(v).__name__ == 'SStr':
+        return str
+    if isinstance(v, Sym) and v.kind in ('str', 'int', 'bool', 'real'):
+        return {'str': str, 'int': int, 'bool': bool, 'real': float}[v.kind]
     if isinstance(v, (Sym, ModelValue, Obj)):
         raise OutsideSubset("type() of a symbolic value")
     return type(v)
